@@ -708,6 +708,44 @@ func c06oracle(cfg c06Cfg, it int, what string, ctx J) {
 	emit(o)
 }
 
+// the schedule an explorer starts with is the one its own validated parameters describe, whichever keys the user's map
+// spelled out and whichever it left to their defaults: after SetParameters + Initialise the first return-to-base is due
+// after InitialReturnToBaseStep iterations (the value the parameter container holds)
+func c06DefaultSchedule() {
+	for _, kind := range []string{"Product", "Mean"} {
+		for variant, prm := range []parameters.Map{
+			{suppcool.StartingTemperature: 10.0, suppcool.CoolingFactor: 0.9}, // every return-to-base key left out
+			{suppcool.StartingTemperature: 10.0, suppexp.MinimumReturnToBaseRate: int64(5)},
+			{suppexp.InitialReturnToBaseStep: int64(12), suppexp.ReturnToBaseAdjustmentFactor: 0.5},
+			{},
+		} {
+			var inner cooling.TemperatureCoolant = suppcool.NewCoolant()
+			if kind == "Mean" {
+				inner = averaged.NewCoolant()
+			}
+			ex := suppexp.New()
+			ex.SetLogHandler(new(loggers.NullLogger))
+			ex.SetCoolant(inner)
+			if err := ex.SetParameters(prm); err != nil {
+				continue
+			}
+			// what a run works on: a clone of the configured explorer (Runner.run), initialised
+			cl := ex.DeepClone().(*suppexp.Explorer)
+			var countdown uint64
+			var step float64
+			if panicked, _ := protect(func() { cl.Initialise(); countdown, step = cl.VerifC06Countdown() }); panicked {
+				continue
+			}
+			want := cl.VerifC18Params().GetInt64(suppexp.InitialReturnToBaseStep)
+			if int64(countdown) != want || step != float64(want) {
+				emit(J{"kind": "oracle", "what": "after SetParameters + Initialise the return-to-base schedule does not start from the explorer's own InitialReturnToBaseStep parameter (a key left to its default must mean the default)",
+					"coolant": kind, "parameter_map_variant": variant, "InitialReturnToBaseStep_parameter": want, "iterations_until_first_return_to_base": countdown, "return_to_base_step": step})
+			}
+			c06stats["default_schedule_probes"]++
+		}
+	}
+}
+
 func runC06(args []string) {
 	tier := "quick"
 	if len(args) > 0 {
@@ -718,6 +756,7 @@ func runC06(args []string) {
 	}
 	thorough := tier == "thorough"
 	rng := newPrng(0xC06)
+	c06DefaultSchedule()
 
 	inits := []int64{1, 2, 3, 7, 20000}
 	mins := []int64{1, 2, 10}
